@@ -300,6 +300,9 @@ func Nop() {}
 // supplies what the real client would return, e.g. the *url.Error wrapping a CheckRedirect refusal.
 func HTTPDoError(err error) { panic("verifrt.HTTPDoError: engine only") }
 
+// HTTPResponseHeader gives every later stubbed response this header set (engine only).
+func HTTPResponseHeader(h http.Header) { panic("verifrt.HTTPResponseHeader: engine only") }
+
 // HTTPRequests returns the requests handed to the stubbed (*http.Client).Do (engine only).
 func HTTPRequests() []*http.Request { panic("verifrt.HTTPRequests: engine only") }
 
